@@ -650,6 +650,20 @@ func c11Walk(r *Run) {
 			r.State("walk/%v/%s/%s/%v", wal, abstract(), q.name, e != 0)
 		case 1: // LiteFS tries its write lock / releases it
 			if guard != nil {
+				if t.Chance(1, 3) {
+					// a second internal writer while the first holds the write
+					// lock: refused, and nothing changes hands
+					before := db.VerifLockStates()
+					second := db.TryAcquireWriteLock()
+					after := db.VerifLockStates()
+					r.Logf("L2: try => %v", second != nil)
+					if !r.Check(second == nil, "c11.internal-writers-overlap", "a second internal writer was granted the write lock while the first still holds it") {
+						return
+					}
+					r.Check(fmt.Sprint(before) == fmt.Sprint(after), "c11.partial", "a refused second internal write-lock attempt changed the lock states: %v -> %v", before, after)
+					r.Count("c11.internal-lock.second-refused")
+					continue
+				}
 				release()
 				r.Logf("L: release")
 				continue
@@ -675,8 +689,12 @@ func c11Walk(r *Run) {
 			}
 			r.State("walk/%v/%s/L-try/%v", wal, abstract(), guard != nil)
 		case 2: // a timed AcquireWriteLock user
-			if guard != nil {
-				continue // would wait for ourselves
+			heldByFirst := guard != nil
+			var statesBefore any
+			if heldByFirst {
+				// another internal writer holds the write lock: this one has to
+				// time out and leave everything as it was
+				statesBefore = fmt.Sprint(db.VerifLockStates())
 			}
 			ctx, cancel := context.WithTimeout(context.Background(), 30*time.Millisecond)
 			var err error
@@ -694,6 +712,14 @@ func c11Walk(r *Run) {
 				}
 			}
 			cancel()
+			if heldByFirst {
+				if !r.Check(err != nil, "c11.internal-writers-overlap", "LiteFS's %s ran to completion while another internal writer held the write lock", what) {
+					return
+				}
+				r.Check(fmt.Sprint(db.VerifLockStates()) == statesBefore, "c11.internal-writers-overlap", "a %s that had to wait for another internal writer changed the lock states: %v -> %v", what, statesBefore, db.VerifLockStates())
+				r.Count("c11.internal-lock.second-refused")
+				continue
+			}
 			r.Logf("L: %s => %v [%s]", what, err, abstract())
 			r.State("walk/%v/%s/L-%s/%v", wal, abstract(), what, err == nil)
 			// the internal-write monitor judges what it wrote; the lock states must be back
